@@ -53,7 +53,7 @@ def ensure_dirs():
 
 # ------------------------------------------------------------------ harness
 FEATURE_SETS = {
-    "default": ["autocomplete", "docgen"],
+    "default": ["autocomplete", "docgen", "batteries"],
     "none": [],
     "autocomplete": ["autocomplete"],
     "all": ["autocomplete", "docgen", "batteries", "derive"],
